@@ -8,6 +8,14 @@ objects (same distribution parameters / same engine class and dimension, constru
 same order) provide the raw draw of every call.  Coq evaluates Model/Sampler.v `generate` on the raw
 draw and compares with the returned array (exactly for the stats methods, 1e-15 for the QMC scaling),
 and evaluates shape, exact zeros, sharing, range and Latin-hypercube strata directly on the output.
+
+End to end: the schedule also holds gradient evaluations through the public path
+(`EnsembleEvaluator.calculate`, both the function+gradient request and the gradient-only request that
+re-uses the cached function result).  The twin then draws for every sampler that has a variable, in the
+order of first appearance in gradient.samplers (the property's calling order; all samplers share one
+generator), and `GradientEvaluations.perturbed_variables` must equal variables + magnitudes * (sum of the
+samplers' outputs) -- which Coq computes with the model of `_perturb_variables` -- and must leave every
+variable that is fixed or has no sampler exactly unchanged.
 """
 from __future__ import annotations
 
@@ -28,11 +36,15 @@ PARALLEL = True
 CASE_TIMEOUT = 60
 EXHAUSTIVE = {"quick": False, "thorough": False}
 RULE = ("systematic family: all six methods x shared on/off x every variables.mask for V <= 4 (single sampler), half of them "
-        "expressed as gradient.samplers assignments with -1; random family: 1-3 sampler configurations of random methods, "
+        "expressed as gradient.samplers assignments with -1; random family: 1-4 sampler configurations of random methods, "
         "random assignment arrays (incl. -1 and samplers left without variables), random variables.mask, R <= 5, P <= 8, V <= 6 "
-        "(170 cases quick / 8000 thorough; thorough also enumerates the masks of V = 5), "
+        "(230 cases quick / 8000 thorough; thorough also enumerates the masks of V = 5), "
         "method spellings ('scipy/Sobol', 'default'), user options for a minority of samplers, int and tuple seeds; every sampler "
-        "is called three times in a (shuffled) round-robin schedule. Non-trivial = at least one call returned an array with a "
+        "is called three times in a (shuffled) round-robin schedule into which one to three gradient evaluations through "
+        "EnsembleEvaluator.calculate are inserted (function+gradient request or function request followed by a gradient-only "
+        "request; few-bit dyadic variables and per-variable magnitudes; no finite bounds); further streams: 2-4 samplers of the SAME "
+        "method, assignments whose first-appearance order is not the sorted order, samplers configured but unused, sampler index "
+        ">= 2, options given as {} . Non-trivial = at least one call returned an array with a "
         "non-zero entry and R*P >= 2; distinct = distinct case dictionaries.")
 ASSUMPTIONS = [
     "the SciPy distributions and QMC engines are oracles: the raw draw of every call is obtained from an identically seeded twin "
@@ -72,14 +84,39 @@ def canonical_method(name: str) -> str:
 
 
 # ---- generators -----------------------------------------------------------------
-def _schedule(rng, K, rounds=3, shuffle=True):
+def _schedule(rng, K, rounds=3, shuffle=True, e2e=0):
     out = []
     for _ in range(rounds):
         ks = list(range(K))
         if shuffle:
             rng.shuffle(ks)
         out += ks
+    for _ in range(e2e):      # gradient evaluations through EnsembleEvaluator.calculate, anywhere in the schedule
+        out.insert(rng.randrange(len(out) + 1), rng.choice(["EB", "EG"]))
     return out
+
+
+MAGS = [0.0625, 0.125, 0.25, 0.5, 1.0, 2.0]
+XS = [-1.0, -0.5, 0.0, 0.0, 0.25, 0.75, 1.5]
+
+
+def _point(rng, V):
+    """Variables and per-variable perturbation magnitudes of the gradient evaluations (few-bit dyadics)."""
+    if rng.random() < 0.3:
+        return [0.0] * V, [rng.choice(MAGS)] * V
+    return [rng.choice(XS) for _ in range(V)], [rng.choice(MAGS) for _ in range(V)]
+
+
+def calling_order(case):
+    """The samplers _perturb_variables must call, in order, according to the property text / the documented
+    behaviour: without gradient.samplers sampler 0; otherwise the non-negative entries in order of first appearance."""
+    if case["assign"] is None:
+        return [0]
+    order = []
+    for a in case["assign"]:
+        if a >= 0 and a not in order:
+            order.append(a)
+    return order
 
 
 def _seed(rng):
@@ -98,6 +135,13 @@ def _sampler(rng, method, shared, spell=False, opts=False):
     return s
 
 
+def e2e_possible(case):
+    """A gradient can be evaluated at all: some sampler is called and at least one variable is free (with every
+    variable fixed ropt has no gradient to estimate and raises inside the least-squares solver; that is not a
+    statement about samplers)."""
+    return bool(calling_order(case)) and (case["varmask"] is None or any(case["varmask"]))
+
+
 def handled_mask(case, k):
     """The variables sampler k handles according to the *property text*: not fixed and assigned to k."""
     V = case["V"]
@@ -114,18 +158,28 @@ def gen_cases(tier, rng):
                 for shared in (False, True):
                     R, P = rng.choice([1, 2, 3]), rng.choice([1, 2, 3, 4])
                     as_assign = rng.random() < 0.5
+                    x, mag = _point(rng, V)
                     base = {"R": R, "P": P, "V": V, "seed": _seed(rng), "samplers": [_sampler(rng, method, shared)],
-                            "schedule": [0, 0, 0]}
+                            "schedule": [0, rng.choice(["EB", "EG"]), 0], "x": x, "mag": mag}
                     if all(mask) and rng.random() < 0.5:
                         yield {**base, "varmask": None, "assign": None}
                     elif as_assign:
-                        yield {**base, "varmask": None, "assign": [0 if b else -1 for b in mask]}
+                        c = {**base, "varmask": None, "assign": [0 if b else -1 for b in mask]}
+                        if not any(mask):           # no variable has a sampler: ropt cannot compute a gradient at all
+                            c["schedule"] = [0, 0, 0]
+                        yield c
                     else:
-                        yield {**base, "varmask": list(mask), "assign": None}
+                        c = {**base, "varmask": list(mask), "assign": None}
+                        if not any(mask):
+                            c["schedule"] = [0, 0, 0]
+                        yield c
     # -- random multi-sampler configurations
     n = 8000 if thorough else 170
     for i in range(n):
         yield random_case(rng, big=thorough and i % 4 == 0)
+    # -- streams aimed at entry sequences / input regions the random family reaches only rarely
+    for i in range(2400 if thorough else 60):
+        yield special_case(rng, i)
 
 
 def random_case(rng, big=False):
@@ -135,7 +189,7 @@ def random_case(rng, big=False):
         V = rng.choice([1, 2, 3, 3, 4, 4, 5, 6])
         if not big and R * P * V > 60:
             continue
-        K = rng.choice([1, 1, 2, 2, 3])
+        K = rng.choice([1, 1, 2, 2, 3, 4])
         samplers = [_sampler(rng, rng.choice(METHODS), rng.random() < 0.4, spell=rng.random() < 0.3, opts=rng.random() < 0.15)
                     for _ in range(K)]
         varmask = None if rng.random() < 0.4 else [rng.random() < 0.7 for _ in range(V)]
@@ -143,10 +197,63 @@ def random_case(rng, big=False):
             assign = None
         else:
             assign = [rng.choice([-1] + list(range(K)) * 3) for _ in range(V)]
+        x, mag = _point(rng, V)
         case = {"R": R, "P": P, "V": V, "varmask": varmask, "assign": assign, "samplers": samplers,
-                "seed": _seed(rng), "schedule": _schedule(rng, K)}
+                "seed": _seed(rng), "x": x, "mag": mag}
+        case["schedule"] = _schedule(rng, K, e2e=rng.choice([1, 1, 2, 3]) if e2e_possible(case) else 0)
         return case
     raise RuntimeError("generator could not produce a case")
+
+
+def special_case(rng, i):
+    """Five streams: (0) 2-4 samplers of the SAME method (different shared flags / options), (1) an assignment whose
+    first-appearance order is not the sorted order and whose samplers all draw from the shared generator, (2) a sampler
+    that is configured but has no variable, placed BEFORE the ones in use, (3) sampler index >= 2 together with a
+    variables.mask and -1 entries, (4) options given as an explicit empty dictionary + only gradient evaluations."""
+    kind = i % 5
+    R, P = rng.choice([1, 2, 3]), rng.choice([1, 2, 3, 4])
+    V = rng.choice([3, 4, 5])
+    if kind == 0:
+        K = rng.choice([2, 3, 4])
+        m = rng.choice(METHODS)
+        samplers = [_sampler(rng, m, k % 2 == rng.randrange(2), opts=rng.random() < 0.3) for k in range(K)]
+        assign = [k % K for k in range(V)]
+        rng.shuffle(assign)
+        varmask = None if rng.random() < 0.5 else [rng.random() < 0.8 for _ in range(V)]
+    elif kind == 1:
+        K = rng.choice([2, 3])
+        samplers = [_sampler(rng, rng.choice(METHODS), rng.random() < 0.4) for _ in range(K)]
+        order = list(range(K))
+        while order == sorted(order):
+            rng.shuffle(order)
+        assign = (order + [rng.choice(order + [-1]) for _ in range(V)])[:max(V, K)]
+        V = len(assign)
+        varmask = None
+    elif kind == 2:
+        K = rng.choice([2, 3])
+        samplers = [_sampler(rng, rng.choice(QMC + STATS), rng.random() < 0.4) for _ in range(K)]
+        unused = rng.randrange(K - 1)           # never the last one
+        used = [k for k in range(K) if k != unused]
+        assign = [rng.choice(used + [-1]) for _ in range(V)]
+        assign[rng.randrange(V)] = used[-1]
+        varmask = None if rng.random() < 0.5 else [rng.random() < 0.8 for _ in range(V)]
+    elif kind == 3:
+        K = rng.choice([3, 4])
+        samplers = [_sampler(rng, rng.choice(METHODS), rng.random() < 0.4) for _ in range(K)]
+        assign = [rng.choice([-1, 0, 1] + [2, K - 1] * 2) for _ in range(V)]
+        assign[rng.randrange(V)] = K - 1
+        varmask = [rng.random() < 0.75 for _ in range(V)]
+    else:
+        K = rng.choice([1, 2])
+        samplers = [dict(_sampler(rng, rng.choice(METHODS), rng.random() < 0.4), options={}) for _ in range(K)]
+        assign = None if K == 1 else [rng.randrange(K) for _ in range(V)]
+        varmask = None if rng.random() < 0.5 else [rng.random() < 0.7 for _ in range(V)]
+    x, mag = _point(rng, V)
+    case = {"R": R, "P": P, "V": V, "varmask": varmask, "assign": assign, "samplers": samplers,
+            "seed": _seed(rng), "x": x, "mag": mag}
+    n_e = rng.choice([2, 3]) if e2e_possible(case) else 0
+    case["schedule"] = (["EB", "EG", "EB"][:n_e] if kind == 4 and n_e else _schedule(rng, K, rounds=2, e2e=n_e))
+    return case
 
 
 # ---- running the real code ------------------------------------------------------
@@ -154,11 +261,13 @@ _PM = None
 
 
 def _config_dict(case):
-    d = {"variables": {"initial_values": [0.0] * case["V"]},
+    d = {"variables": {"initial_values": list(case.get("x") or [0.0] * case["V"])},
          "realizations": {"weights": [1.0] * case["R"]},
          "gradient": {"number_of_perturbations": case["P"],
                       "seed": tuple(case["seed"]) if isinstance(case["seed"], list) else case["seed"]},
          "samplers": [dict(s) for s in case["samplers"]]}
+    if case.get("mag") is not None:
+        d["gradient"]["perturbation_magnitudes"] = list(case["mag"])
     if case["varmask"] is not None:
         d["variables"]["mask"] = list(case["varmask"])
     if case["assign"] is not None:
@@ -207,13 +316,46 @@ def run_impl(case):
     from ropt.plugins import PluginManager
     if _PM is None:
         _PM = PluginManager()
+    from ropt.evaluator import EvaluatorResult
+    from ropt.results import GradientResults
+
+    def evaluator(variables, context):      # deterministic; one objective
+        return EvaluatorResult(objectives=np.sum((variables - 0.25) ** 2, axis=1, keepdims=True))
+
     config = EnOptConfig.model_validate(_config_dict(case))
-    ee = EnsembleEvaluator(config, None, lambda *a, **k: None, _PM)
+    ee = EnsembleEvaluator(config, None, evaluator, _PM)
     samplers = ee._samplers  # noqa: SLF001 - what _init_samplers created
     masks = [None if s._mask is None else [bool(b) for b in s._mask] for s in samplers]  # noqa: SLF001
     rng, objs = _twin(case)
-    calls = []
+    calls, e2e = [], []
+    x = np.array(case.get("x") or [0.0] * case["V"], dtype=np.float64)
+    order = calling_order(case)
     for k in case["schedule"]:
+        if isinstance(k, str):                  # a gradient evaluation through the public path
+            if not e2e_possible(case):
+                continue
+            raws = [[j, _twin_draw(rng, objs[j], 1 if case["samplers"][j]["shared"] else case["R"], case["P"])] for j in order]
+            rec = {"op": k, "raws": raws, "out": None, "exc": None}
+            try:
+                with warnings.catch_warnings():
+                    warnings.simplefilter("ignore")
+                    if k == "EG":               # function request, then the gradient-only request at the same point
+                        ee.calculate(x.copy(), compute_functions=True, compute_gradients=False)
+                        res = ee.calculate(x.copy(), compute_functions=False, compute_gradients=True)
+                    else:
+                        res = ee.calculate(x.copy(), compute_functions=True, compute_gradients=True)
+                g = [r for r in res if isinstance(r, GradientResults)]
+                pv = np.asarray(g[0].evaluations.perturbed_variables)
+                rec["shape"] = list(pv.shape)
+                rec["dtype"] = str(pv.dtype)
+                rec["out"] = pv.astype(float).tolist() if pv.ndim == 3 else None
+                if pv.ndim != 3:
+                    rec["exc"] = "NotThreeDimensional"
+            except Exception as e:  # noqa: BLE001 - the exception class is the observation
+                rec["exc"] = type(e).__name__
+                rec["msg"] = str(e)[:200]
+            e2e.append(rec)
+            continue
         shared = bool(case["samplers"][k]["shared"])
         raw = _twin_draw(rng, objs[k], 1 if shared else case["R"], case["P"])
         rec = {"k": k, "raw": raw, "out": None, "exc": None}
@@ -238,7 +380,7 @@ def run_impl(case):
                 rec["exc"] = type(e).__name__
                 rec["msg"] = str(e)[:200]
         calls.append(rec)
-    return {"created": len(samplers), "masks": masks, "calls": calls}
+    return {"created": len(samplers), "masks": masks, "calls": calls, "e2e": e2e}
 
 
 # ---- Gallina printing -----------------------------------------------------------
@@ -280,8 +422,16 @@ def coq_case(case, obs):
         out = "None" if c["out"] is None else f"(Some {_arr3(c['out'])})"
         calls.append(f"(Build_call {cq.nat(c['k'])} {raw} {out})")
     assign = "None" if case["assign"] is None else f"(Some {cq.zs(case['assign'])})"
+    e2e = []
+    for e in obs.get("e2e", []):
+        raws = []
+        for j, raw in e["raws"]:
+            m = canonical_method(case["samplers"][j]["method"])
+            raws.append(f"({cq.nat(j)}, " + (f"RawStats {_fqs(raw)}" if m in STATS else f"RawQmc {cq.lst(_fqs(p) for p in raw)}") + ")")
+        out = "None" if e["out"] is None else f"(Some {_arr3(e['out'])})"
+        e2e.append(f"(Build_e2e {cq.lst(raws)} {_fqs(case['x'])} {_fqs(case['mag'])} {out})")
     return (f"(Build_case {cq.nat(case['R'])} {cq.nat(case['P'])} {cq.nat(case['V'])} {_omask(case['varmask'])} {assign} "
-            f"{cq.lst(scf)} {cq.lst(_omask(m) for m in obs['masks'])} {cq.lst(calls)})")
+            f"{cq.lst(scf)} {cq.lst(_omask(m) for m in obs['masks'])} {cq.lst(calls)} {cq.lst(e2e)})")
 
 
 # ---- the property predicate on the implementation's output (no model) --------------
@@ -309,6 +459,8 @@ def _violations(case, obs):
             out.append(("unhandled-zero", ci, {"index": bad[0], "value": a[bad[0][0]][bad[0][1]][bad[0][2]]}))
         if shared and any(a[r] != a[0] for r in range(1, R)):
             out.append(("shared-identical", ci, {"method": m}))
+        if not shared and hv and P >= 1 and any(a[r] == a[q] for r in range(R) for q in range(r + 1, R)):
+            out.append(("drawn-per-realization", ci, {"method": m, "detail": "two realizations received identical perturbations"}))
         if m != "norm" and default:
             rb = [(r, p, v) for r in range(R) for p in range(P) for v in range(V) if not -1.0 <= a[r][p][v] <= 1.0]
             if rb:
@@ -345,8 +497,59 @@ def _violations(case, obs):
                 if strata != list(range(n)):
                     out.append(("lhs-stratification", ci, {"variable": v, "strata": strata, "n": n}))
                     break
+    out += _e2e_violations(case, obs)
     if obs.get("created") != len(case["samplers"]):
         out.append(("one-sampler-per-configuration", -1, {"created": obs.get("created"), "configured": len(case["samplers"])}))
+    return out
+
+
+def _e2e_violations(case, obs):
+    """perturbed_variables - variables of a gradient evaluation: magnitudes * the sample of the variable's own sampler
+    (one draw / one engine point per perturbation vector, per realization unless shared); exactly nothing for a
+    variable that is fixed or has no sampler."""
+    R, P, V = case["R"], case["P"], case["V"]
+    out = []
+    for ei, e in enumerate(obs.get("e2e", [])):
+        if e["out"] is None:
+            out.append(("gradient-evaluation-returns-perturbed-variables", ei, {"exception": e["exc"], "msg": e.get("msg"), "op": e["op"]}))
+            continue
+        if e.get("shape") != [R, P, V] or e.get("dtype") != "float64":
+            out.append(("perturbed-variables-shape", ei, {"shape": e.get("shape"), "expected": [R, P, V]}))
+            continue
+        a, x, mag = e["out"], case["x"], case["mag"]
+        owner = {}
+        for j, raw in e["raws"]:
+            hm = handled_mask(case, j)
+            hv = [v for v in range(V) if hm[v]]
+            for pos, v in enumerate(hv):
+                owner[v] = (j, pos, len(hv), raw)
+        bad = None
+        for r in range(R):
+            for p in range(P):
+                for v in range(V):
+                    if v not in owner:
+                        if a[r][p][v] != x[v]:
+                            bad = ("unhandled-variable-perturbed", {"index": [r, p, v], "value": a[r][p][v], "variable": x[v]})
+                    else:
+                        j, pos, D, raw = owner[v]
+                        sc = case["samplers"][j]
+                        rr = 0 if sc["shared"] else r
+                        if canonical_method(sc["method"]) in STATS:
+                            smp = raw[(rr * P + p) * D + pos]
+                        else:
+                            smp = 2.0 * raw[rr * P + p][pos] - 1.0
+                        exp = x[v] + mag[v] * smp
+                        if abs(a[r][p][v] - exp) > 1e-12:
+                            bad = ("perturbation-is-not-the-own-samplers-sample", {"index": [r, p, v], "sampler": j, "value": a[r][p][v],
+                                                                                   "expected": exp, "op": e["op"]})
+                    if bad:
+                        break
+                if bad:
+                    break
+            if bad:
+                break
+        if bad:
+            out.append((bad[0], ei, bad[1]))
     return out
 
 
@@ -374,7 +577,11 @@ def features(case, obs):
             "methods": "+".join(ms), "shared": sum(bool(s["shared"]) for s in case["samplers"]),
             "varmask": case["varmask"] is not None, "assign": case["assign"] is not None,
             "options": any(s.get("options") for s in case["samplers"]),
-            "raised": sum(c["out"] is None for c in obs["calls"])}
+            "raised": sum(c["out"] is None for c in obs["calls"]), "gradient_evaluations": len(obs.get("e2e", [])),
+            "order_not_sorted": calling_order(case) != sorted(calling_order(case)),
+            "unused_sampler": any(k not in calling_order(case) for k in range(len(case["samplers"]))) and case["assign"] is not None,
+            "max_index": max(calling_order(case) or [-1]), "empty_sampler": any(m is not None and not any(m) for m in obs["masks"]),
+            "same_method_twice": len(case["samplers"]) > len({canonical_method(s["method"]) for s in case["samplers"]})}
 
 
 def shrink(case):
@@ -389,12 +596,13 @@ def shrink(case):
     if case["V"] > 1:
         V = case["V"] - 1
         yield {**case, "V": V, "varmask": None if case["varmask"] is None else case["varmask"][:V],
-               "assign": None if case["assign"] is None else case["assign"][:V]}
+               "assign": None if case["assign"] is None else case["assign"][:V],
+               "x": None if case.get("x") is None else case["x"][:V], "mag": None if case.get("mag") is None else case["mag"][:V]}
     if K > 1 and case["assign"] is not None:
         last = K - 1
         yield {**case, "samplers": case["samplers"][:last],
                "assign": [a if a < last else -1 for a in case["assign"]],
-               "schedule": [k for k in sched if k < last] or [0]}
+               "schedule": [k for k in sched if isinstance(k, str) or k < last] or [0]}
     for k, s in enumerate(case["samplers"]):
         if s.get("options"):
             ss = [dict(x) for x in case["samplers"]]
@@ -413,20 +621,29 @@ def search(rng, case):
             c["seed"] = _seed(rng)
             c["R"], c["P"] = rng.choice([1, 2, 3]), rng.choice([1, 2, 3, 4])
             yield c
+    for i in range(100):
+        yield special_case(rng, i)
 
 
 MANIFEST = {
     "level_text": ("Machine-checked Coq proofs, for all realization/perturbation/variable counts, masks, sampler assignments and raw draws, "
-                   "about the executable model of SciPySampler.generate_samples and _get_mask (Model/Sampler.v): output shape (R,P,V), literal "
-                   "zeros for unhandled variables, disjoint per-sampler masks that never cover a fixed variable, identical blocks when shared and "
-                   "consecutive disjoint slices of the draw otherwise, every QMC perturbation vector is exactly one engine point r*P+p scaled by "
-                   "2u-1 into [-1,1], and Latin-hypercube strata per handled variable are preserved; the model is tied to the code on every run by "
-                   "an in-Coq comparison with the real generate_samples() output over three consecutive calls per sampler against identically "
-                   "seeded twin SciPy distributions/engines, plus direct checks of zeros, sharing, range and LHS strata on the output."),
+                   "about the executable model of SciPySampler.generate_samples, _get_mask and _perturb_variables (Model/Sampler.v): output shape "
+                   "(R,P,V), literal zeros for unhandled variables, disjoint per-sampler masks that never cover a fixed variable, identical blocks "
+                   "when shared and consecutive disjoint slices of the draw otherwise, every QMC perturbation vector is exactly one engine point "
+                   "r*P+p scaled by 2u-1 into [-1,1], Latin-hypercube strata per handled variable are preserved, generate is total on well-sized "
+                   "draws, the samplers are called once each in order of first appearance in gradient.samplers, and the sum over the samplers "
+                   "gives every free variable exactly its own sampler's sample and leaves fixed / unassigned variables unperturbed "
+                   "(perturbed = variables + magnitudes * samples); the model is tied to the code on every run by an in-Coq comparison with the "
+                   "real generate_samples() output over repeated calls per sampler (the caller accumulating into the returned array in between) "
+                   "and with GradientEvaluations.perturbed_variables of gradient evaluations through EnsembleEvaluator.calculate (both request "
+                   "paths), against identically seeded twin SciPy distributions/engines drawn in the model's calling order, plus direct checks of "
+                   "zeros, sharing, per-realization distinctness, range and LHS strata on the output."),
     "level_note": ("SciPy distributions/QMC engines and numpy's Generator are oracles (twin objects with the same seed provide the raw draws; "
-                   "their range/stratification contracts are checked on outputs, not proved). Trusted: Coq kernel + VM, the Python driver "
-                   "(twin construction order, exact float->Q printing). QMC scaling is compared with absolute tolerance 1e-15, everything else exactly. "
-                   "All theorems print 'Closed under the global context'."),
-    "technique": "Coq proof (list induction: reshape index law, scatter/gather, floor invariance) + in-Coq differential correspondence against identically seeded SciPy engines",
+                   "their range/stratification contracts are checked on outputs, not proved). The range [-1,1] is claimed for default options "
+                   "only (samplers with user options are compared with a twin using the same options). Gradient evaluations use configurations "
+                   "without finite bounds, so _apply_bounds is the identity (its laws are property C10). Trusted: Coq kernel + VM, the Python "
+                   "driver (twin construction and calling order, exact float->Q printing). QMC scaling is compared with absolute tolerance 1e-15, "
+                   "perturbed variables with 1e-12, everything else exactly. All theorems print 'Closed under the global context'."),
+    "technique": "Coq proof (list induction: reshape index law, scatter/gather, floor invariance, first-appearance order, sum over disjoint masks) + in-Coq differential correspondence against identically seeded SciPy engines, per sampler and end to end",
     "design_ref": "DESIGN.md section 4, C17",
 }
